@@ -39,7 +39,8 @@ fn parse_bytes(bytes: &[u8], slot: u64) -> Parsed {
 
 fn record(ix: &[usize]) -> Parameters {
     let lens = [0.0, 1.0, 0.15, -0.1, 1e-7, 12345.678, -2.0, 0.525];
-    let offs = [0.0, PI / 2.0, -PI / 2.0, PI, 0.1234567, -3.0];
+    // includes offsets near the printed precision (1e-4 degree = 1.7e-6 rad) and calibration-residue sized ones
+    let offs = [0.0, PI / 2.0, -PI / 2.0, PI, 0.1234567, -3.0, 5e-5, -3e-6, 2.5e-4];
     let signs: [[i8; 6]; 4] = [[1; 6], [-1, 1, -1, 1, -1, 1], [1, 1, -1, -1, -1, -1], [1, 1, 1, 1, 1, 0]];
     let dof = if ix[4] == 3 || ix[5] == 1 { 5 } else { 6 };
     let mut s = signs[ix[4]];
@@ -54,7 +55,7 @@ fn record(ix: &[usize]) -> Parameters {
         c2: lens[ix[2]],
         c3: lens[(ix[2] + 5) % 8],
         c4: lens[(ix[2] + ix[1]) % 8],
-        offsets: std::array::from_fn(|i| offs[(ix[3] + i * (1 + ix[3])) % 6]),
+        offsets: std::array::from_fn(|i| offs[(ix[3] + i * (1 + ix[3])) % 9]),
         sign_corrections: s,
         dof,
     }
@@ -282,7 +283,7 @@ pub fn run(ctx: &Ctx) -> Report {
     let thorough = !ctx.quick();
     let _ = std::fs::remove_dir_all(scratch_dir());
     // round trip
-    let rsizes = [8usize, 8, 8, 6, 4, 2];
+    let rsizes = [8usize, 8, 8, 9, 4, 2];
     let rn = par::product(&rsizes);
     let mut rep = par::run(rn, |idx, r| {
         let mut ix = [0usize; 6];
@@ -400,7 +401,7 @@ pub fn run(ctx: &Ctx) -> Report {
     let _ = std::fs::remove_dir_all(scratch_dir());
     rep.traces_validated = rep.transitions;
     rep.rule = format!(
-        "round trip: 8x8x8 length choices (incl. 0, 1, negatives, 1e-7, 12345.678) x 6 offset patterns x 4 sign patterns x dof -> to_yaml -> file -> \
+        "round trip: 8x8x8 length choices (incl. 0, 1, negatives, 1e-7, 12345.678) x 9 offset patterns (incl. offsets of 3e-6, 5e-5, 2.5e-4 rad) x 4 sign patterns x dof -> to_yaml -> file -> \
          from_yaml_file; documented variants: number style x offset style x array length 6/5 x dof {{absent, top level, nested}} x arrays present/absent x \
          {{plain, comments, CRLF, trailing spaces}} against the harness's own expectation; no panic: all 1- and 2-edit deviations of the documented file \
          ({} single edits), all token strings up to length {maxlen} over a 20-token alphabet, 10 special byte strings; signature = outcome class",
